@@ -27,10 +27,10 @@ type Layout struct {
 	// PlainAfterClose is the decrypted data between closefile and the end of
 	// the encrypted portion's container (PFB binary segment / end of data for
 	// the PDF form); only meaningful for the binary form.
-	TrailerZeros      int
+	TrailerZeros       int
 	TrailerCleartomark bool
-	TrailerOther      string // anything in the trailer that is neither a zero, white space nor cleartomark
-	Comments          []string
+	TrailerOther       string // anything in the trailer that is neither a zero, white space nor cleartomark
+	Comments           []string
 }
 
 // Font is the decoded font program.
